@@ -30,11 +30,13 @@ def run_tlc_parallel(jobs):
     """jobs: [(label, module, cfg, coverage)] -> {label: TlcResult}; each TLC uses one worker (PrintT corpus idiom)"""
     common.tlc_workspace()
     out = {}; err = []
+    slots = threading.Semaphore(4)      # never more than 4 TLC processes at a time
     def one(label, module, cfg, cov):
-        try:
-            out[label] = common.tlc(module, cfg=cfg, workers=1, coverage=cov, timeout=1500, xmx="3g")
-        except BaseException as e:  # Infra from a thread: re-raised by the caller
-            err.append(e)
+        with slots:
+            try:
+                out[label] = common.tlc(module, cfg=cfg, workers=1, coverage=cov, timeout=1500, xmx="3g")
+            except BaseException as e:  # Infra from a thread: re-raised by the caller
+                err.append(e)
     th = [threading.Thread(target=one, args=j) for j in jobs]
     for t in th: t.start()
     for t in th: t.join()
@@ -92,6 +94,28 @@ def span_ok(exp, got):
     return got[0] == exp[0] and got[1] == exp[1]
 
 
+def req_problems(e, g):
+    """compare EVERY field of a successfully filled http_req_line_data_t with the reference's expectation.
+    -> (bad, ubad): names of the mandatory fields / of the optional URI components that are wrong"""
+    bad = []
+    if g["ls"] != e["lineSize"]: bad.append("line_size")
+    if (g["vmaj"], g["vmin"]) != (e["vmaj"], e["vmin"]): bad.append("version")
+    if g["mcode"] != e["mcode"]: bad.append("method_code")
+    for f in ("method", "target"):
+        if not span_ok(e[f], g[f]): bad.append(f)
+    ubad = []
+    for f in ("scheme", "auth", "path", "query"):
+        sp = g[f]
+        if sp[0] != -1 and not (0 <= sp[0] and sp[0] + sp[1] <= e["lineSize"]):
+            ubad.append(f + "-outside-line")       # "each as a sub-span of the input"
+        elif f == "path" and e["pathAny"]:
+            t = e["target"]
+            if not (sp[1] == 0 or (t[0] <= sp[0] and sp[0] + sp[1] <= t[0] + t[1])): ubad.append(f)
+        elif not span_ok(e[f], sp):
+            ubad.append(f)
+    return bad, ubad
+
+
 def start_lines(ctx, exe, cases, fails, seen):
     lines = ["%s %s" % (c["kind"], hexs(text_bytes(c["text"]))) for c in cases]
     res = common.batch_run(exe, lines, timeout=600)
@@ -110,32 +134,95 @@ def start_lines(ctx, exe, cases, fails, seen):
             fails.add("%s:%s:read-before-start-of-buffer" % (fn, shape), det, rp)
         if g["rc"] != 0:
             fails.add("%s:%s:rejected" % (fn, shape), det, rp); continue
-        bad = []
-        if g["ls"] != e["lineSize"]: bad.append("line_size")
-        if (g["vmaj"], g["vmin"]) != (e["vmaj"], e["vmin"]): bad.append("version")
         if c["kind"] == "resp":
+            bad = []
+            if g["ls"] != e["lineSize"]: bad.append("line_size")
+            if (g["vmaj"], g["vmin"]) != (e["vmaj"], e["vmin"]): bad.append("version")
             if g["code"] != e["code"]: bad.append("status_code")
             if not span_ok(e["reason"], g["reason"]): bad.append("reason")
             if bad: fails.add("%s:%s:wrong:%s" % (fn, shape, "+".join(bad)), det, rp)
+            elif g["deref"]: fails.add("%s:%s:unreadable-span:%s" % (fn, shape, "+".join(g["deref"])), det, rp)
             continue
-        if g["mcode"] != e["mcode"]: bad.append("method_code")
-        for f in ("method", "target"):
-            if not span_ok(e[f], g[f]): bad.append(f)
+        bad, ubad = req_problems(e, g)
         if bad:
             fails.add("%s:wrong:%s" % (fn, "+".join(bad)), det, rp)
-        ubad = []
-        for f in ("scheme", "auth", "path", "query"):
-            sp = g[f]
-            if sp[0] != -1 and not (0 <= sp[0] and sp[0] + sp[1] <= e["lineSize"]):
-                ubad.append(f + "-outside-line")       # "each as a sub-span of the input"
-            elif f == "path" and e["pathAny"]:
-                t = e["target"]
-                if not (sp[1] == 0 or (t[0] <= sp[0] and sp[0] + sp[1] <= t[0] + t[1])): ubad.append(f)
-            elif not span_ok(e[f], sp):
-                ubad.append(f)
         if ubad:
             if shape == "plain": fails.add("%s:plain:wrong:%s" % (fn, "+".join(ubad)), det, rp)
             else: fails.add("%s:%s:wrong-spans" % (fn, shape), det, rp)
+        if g["deref"] and not bad and not ubad:
+            fails.add("%s:%s:unreadable-span:%s" % (fn, shape, "+".join(g["deref"])), det, rp)
+
+
+def form_name(it):
+    return it["form"] + ("+query" if it["hasq"] else "")
+
+
+def sequences(ctx, exe, cases, fails, seen, stats):
+    """2-3 requests of different target forms parsed into the SAME result structure (poisoned before the first call),
+    each from its own exact-size mapping that is inaccessible when the next one is parsed"""
+    fn = "http_parse_req_line"
+    lines = ["seq " + " ".join(hexs(text_bytes(it["text"])) for it in c["items"]) for c in cases if len(c["items"]) >= 2]
+    multi = [c for c in cases if len(c["items"]) >= 2]
+    res = common.batch_run(exe, lines, timeout=600)
+    for c, ln, a in zip(multi, lines, res):
+        ctx.add(evaluations=1); seen.add(hash(ln))
+        items = c["items"]
+        rp = {"driver_line": ln, "texts": [it["text"] for it in items], "expect": [it["expect"] for it in items]}
+        if isinstance(a, dict):
+            k = a["crash"]; fails.add("%s:result-struct-reused:%s:%s" % (fn, k[0], k[1]), a["raw"], rp); continue
+        gs = json.loads(a)["res"]
+        for i, it in enumerate(items):
+            prev = "after-" + form_name(items[i - 1]) if i else "first-use"
+            tag = "%s:result-struct-reused:%s:%s" % (fn, prev, form_name(it))
+            det = "requests parsed in order into one structure: %r\nrequest #%d %r\nexpected %s\ngot      %s" % (
+                rp["texts"], i + 1, it["text"], json.dumps(it["expect"], sort_keys=True), json.dumps(gs[i]) if i < len(gs) else "-")
+            if i >= len(gs): break
+            g = gs[i]
+            stats["seq_parses"] += 1
+            if i: stats["seq_transitions"].add((form_name(items[i - 1]), form_name(it)))
+            if g.get("fault"):
+                fails.add(tag + ":read-past-end-of-buffer", det, rp); break
+            if g["rc"] != 0:
+                fails.add(tag + ":rejected", det, rp); continue
+            bad, ubad = req_problems(it["expect"], g)
+            if bad or ubad: fails.add(tag + ":wrong:" + "+".join(bad + ubad), det, rp)
+            elif g["deref"]: fails.add(tag + ":unreadable-span:" + "+".join(g["deref"]), det, rp)
+
+
+def queries(ctx, exe, cases, fails, seen, stats):
+    lines = []; meta = []
+    for c in cases:
+        for name, exp in sorted(c["look"].items()):
+            lines.append("qry %s %s" % (hexs(text_bytes(c["text"])), name)); meta.append((c, name, exp))
+    res = common.batch_run(exe, lines, timeout=600)
+    for ln, (c, name, exp), a in zip(lines, meta, res):
+        ctx.add(evaluations=1); seen.add(hash(ln))
+        rp = {"driver_line": ln, "query": c["text"], "name": name, "expect": exp}
+        if isinstance(a, dict):
+            k = a["crash"]; fails.add("http_query_val_get_ex:%s:%s" % (k[0], k[1]), a["raw"], rp); continue
+        g = json.loads(a)
+        det = "query %r name %r\nexpected %s\ngot      %s" % (c["text"], name, json.dumps(exp, sort_keys=True), a)
+        stats["query_lookups"] += 1
+        if exp["found"]: stats["query_lookups_hit"] += 1
+        if g["ulo"]: fails.add("http_query_val_get_ex:read-before-start-of-buffer", det, rp)
+        for fnn, key in (("http_query_val_get_ex", "ex"), ("http_query_val_get", "get")):
+            r = g[key]
+            if r == "F":
+                fails.add("%s:read-past-end-of-buffer" % fnn, det, rp); continue
+            if not exp["found"]:
+                if r[0] == 0: fails.add("%s:found-absent-name" % fnn, det, rp)
+                continue
+            if r[0] != 0:
+                fails.add("%s:missed-name" % fnn, det, rp); continue
+            if key == "ex":
+                noff, voff, vlen, dbad = r[1], r[2], r[3], r[4]
+                if noff != exp["name"][0]: fails.add("%s:wrong-name-pointer" % fnn, det, rp)
+            else:
+                voff, vlen, dbad = r[1], r[2], r[3]
+            if vlen != exp["val"][1] or (vlen and voff != exp["val"][0]) or \
+                    (not vlen and not (voff == -1 or 0 <= voff <= len(c["text"]))):
+                fails.add("%s:wrong-value-span" % fnn, det, rp)
+            elif dbad: fails.add("%s:unreadable-span" % fnn, det, rp)
 
 
 # ---------------------------------------------------------------------------------------------- header blocks
@@ -234,12 +321,16 @@ def run(ctx):
     d = common.scratch()
     if ctx.quick:
         jobs = [("GenHttpStart/GenHttpStart.cfg", "GenHttpStart", "GenHttpStart.cfg", False),
-                ("GenHttpHdr/GenHttpHdr.cfg", "GenHttpHdr", "GenHttpHdr.cfg", False)]
+                ("GenHttpHdr/GenHttpHdr.cfg", "GenHttpHdr", "GenHttpHdr.cfg", False),
+                ("GenHttpSeq/GenHttpSeq.cfg", "GenHttpSeq", "GenHttpSeq.cfg", False),
+                ("GenHttpQuery/GenHttpQuery.cfg", "GenHttpQuery", "GenHttpQuery.cfg", False)]
     else:
         jobs = [("GenHttpStartT/GenHttpStartT.cfg", "GenHttpStartT", "GenHttpStartT.cfg", True),
                 ("GenHttpHdr/GenHttpHdr_thoroughA.cfg", "GenHttpHdr", "GenHttpHdr_thoroughA.cfg", True),
                 ("GenHttpHdr/GenHttpHdr_thoroughB.cfg", "GenHttpHdr", "GenHttpHdr_thoroughB.cfg", True),
-                ("GenHttpHdr/GenHttpHdr_thoroughC.cfg", "GenHttpHdr", "GenHttpHdr_thoroughC.cfg", True)]
+                ("GenHttpHdr/GenHttpHdr_thoroughC.cfg", "GenHttpHdr", "GenHttpHdr_thoroughC.cfg", True),
+                ("GenHttpSeq/GenHttpSeq_thorough.cfg", "GenHttpSeq", "GenHttpSeq_thorough.cfg", True),
+                ("GenHttpQuery/GenHttpQuery_thorough.cfg", "GenHttpQuery", "GenHttpQuery_thorough.cfg", True)]
     box = {}
     def build():
         try:
@@ -254,7 +345,8 @@ def run(ctx):
     ctx.log("TLC done: " + ", ".join("%s %d states %.0fs" % (k, r.distinct, r.wall) for k, r in results.items()))
 
     fails = Fails(); seen = set()
-    stats = {"acc": 0, "rej": 0, "lookups": 0, "lookups_hit": 0}
+    stats = {"acc": 0, "rej": 0, "lookups": 0, "lookups_hit": 0, "seq_parses": 0, "seq_transitions": set(),
+             "query_lookups": 0, "query_lookups_hit": 0}
     taken_by = {}                       # (module, action) -> times taken over all runs of that module
     for label, r in results.items():
         check_tlc(ctx, r, label)
@@ -262,18 +354,35 @@ def run(ctx):
             k = (label.split("/")[0], act); taken_by[k] = taken_by.get(k, 0) + taken
     for k, v in taken_by.items():
         if k[0].startswith("GenHttpStart") and k[1] == "Next": continue   # no transitions there: Init is the corpus
+        if k[1] == "Emit": continue                                        # the state constraint, not an action
         if v == 0: raise common.Infra("action %s of %s never taken" % (k[1], k[0]))
 
     # ---- start lines
     start_cases = []
+    seq_cases = []; qry_cases = []
     for label, r in results.items():
         if label.startswith("GenHttpStart"):
             cs = list(iter_cases(r.out)); check_count(len(cs), r, label); start_cases += cs
+        elif label.startswith("GenHttpSeq") or label.startswith("GenHttpQuery"):
+            cs = list(iter_cases(r.out)); check_count(len(cs) + 1, r, label)    # the empty initial state prints nothing
+            if label.startswith("GenHttpSeq"): seq_cases += cs
+            else: qry_cases += cs
     forms = {c["form"] for c in start_cases}
     if forms != {"origin", "absolute", "authority", "asterisk", "status"}:
         raise common.Infra("vacuous corpus: start-line forms=%s" % forms)
     start_lines(ctx, exe, start_cases, fails, seen)
     ctx.log("start lines compared: %d" % len(start_cases))
+
+    # ---- the same result structure used for request after request; query access
+    sequences(ctx, exe, seq_cases, fails, seen, stats)
+    want = {(a, b) for a in ("absolute", "absolute+query", "authority") for b in ("origin", "origin+query", "asterisk")}
+    if not want <= stats["seq_transitions"]:
+        raise common.Infra("vacuous corpus: request sequences lack the transitions %s" % sorted(want - stats["seq_transitions"]))
+    queries(ctx, exe, qry_cases, fails, seen, stats)
+    if not stats["query_lookups_hit"] or stats["query_lookups_hit"] == stats["query_lookups"]:
+        raise common.Infra("vacuous corpus: query lookups %s" % stats)
+    ctx.log("request sequences compared: %d (%d parses into a used structure), query lookups: %d"
+            % (len(seq_cases), stats["seq_parses"], stats["query_lookups"]))
 
     # ---- header blocks (streamed in chunks)
     eds = {}; nhdr = 0; samples_h = []
@@ -301,13 +410,20 @@ def run(ctx):
             single_edits_by_kind={k: v for k, v in eds.items() if k != "none"},
             verdicts_expected_accept=stats["acc"], verdicts_expected_reject=stats["rej"],
             pattern_occurrences={p: stats.get(p, 0) for p in PATTERNS},
-            lookups_compared=stats["lookups"], lookups_with_match=stats["lookups_hit"])
+            lookups_compared=stats["lookups"], lookups_with_match=stats["lookups_hit"],
+            request_sequences_into_one_result_struct=len(seq_cases), parses_in_sequences=stats["seq_parses"],
+            form_transitions_in_sequences=sorted("%s->%s" % t for t in stats["seq_transitions"]),
+            query_lookups_compared=stats["query_lookups"], query_lookups_with_match=stats["query_lookups_hit"])
     def sample(c):
         return {"text": c["text"], "expect": c.get("expect", {"reject_GET": c.get("rejGet"), "look": c.get("look")})}
     ctx.add(samples=[sample(start_cases[len(start_cases) // 3]), sample(start_cases[-1])] + [sample(c) for c in samples_h])
     ctx.cov["rule"] = ("cases are the reachable states of the generator specs: start lines from the RFC 7230/3986 grammar "
                        "sets of GenHttpStart(T); all header blocks of <= 3 fields over the field alphabet in every order; "
-                       "all single smuggling edits of accepted blocks. Every case is non-trivial (a well-formed line or a "
+                       "all single smuggling edits of accepted blocks; GenHttpSeq: all sequences of <= 3 requests over a pool "
+                       "of target forms whose neighbours differ in the optional components, parsed into ONE result structure; "
+                       "GenHttpQuery: all queries of <= MaxPairs name=value pairs x every lookup name. Every result structure / "
+                       "result variable is poisoned (pointers to an inaccessible page, huge sizes) before each call and every "
+                       "field is compared. Every case is non-trivial (a well-formed line or a "
                        "block rendered behind a request line); distinct = distinct driver inputs (operation, bytes, queries)")
     ctx.assumptions += [
         "TLA+ modules specs/http/HttpMsg.tla and HttpSec.tla are the oracle (RFC 7230 3.1/3.2/5.3, RFC 3986 3, and the "
@@ -316,4 +432,6 @@ def run(ctx):
         "SP-colon inside a field VALUE and HT before a colon are not generated (the statement does not decide them)",
         "only accept/reject of http_req_sec_chk is compared, not the rule number",
         "memory accesses are observed with guard pages on both ends of exact-size inputs plus ASan/UBSan",
-        "not covered: http_hdr_val_remove, http_query_val_get/_del, chunked decoding, url decoding (not in the statement)"]
+        "query access: only what the comment of http_query_val_get_ex documents ([&]name=value[&], first pair with exactly "
+        "that name); items without '=', names differing only in case and http_query_val_del are not generated",
+        "not covered: http_hdr_val_remove, http_query_val_del, chunked decoding, url decoding (not in the statement)"]
